@@ -15,7 +15,7 @@ def decorations(quick, seed):
         i = 0
         for (where, idx) in progs.positions(b):
             for ti, t in enumerate(progs.EXCL_TYPES):
-                mode = 'unexported' if (ti + idx + len(where)) % 2 == 0 else 'dash'
+                mode = ('unexported', 'dash', 'jsondash')[(ti + idx + len(where)) % 3]
                 did = '%s_x%02d' % (bn, i)
                 i += 1
                 decs.append((did, bn, progs.decorate_excluded(b, did, where, idx, mode, t), '%s %s @%s[%d]' % (mode, t, '.'.join(where) or 'top', idx)))
@@ -34,8 +34,9 @@ def decorations(quick, seed):
         em = [d for d in decs if '_e' in d[0]]
         pick = []
         for t in progs.EXCL_TYPES:
-            cand = [d for d in ex if (' ' + t + ' @') in d[3]]
-            pick += rnd.sample(cand, min(3, len(cand)))
+            for md in ('unexported', 'dash', 'jsondash'):
+                cand = [d for d in ex if d[3].startswith(md + ' ' + t + ' @')]
+                pick += rnd.sample(cand, min(1, len(cand)))
         pick += rnd.sample(em, min(13, len(em)))
         decs = pick
     return bases, decs
@@ -123,7 +124,7 @@ def main(tier, replay):
     c.programs = len(decs)
     c.extra['program_pairs'] = len(decs)
     c.extra['pairs_run'] = len(jobs) - 1
-    c.bounds = {'bases': sorted(bases), 'decorations': 'an unexported or parquet:"-" member of each of %d Go types inserted at every position of every struct (top level and nested); every contiguous run of top-level members moved into an embedded struct, once and doubly nested' % len(progs.EXCL_TYPES),
+    c.bounds = {'bases': sorted(bases), 'decorations': 'an unexported, parquet:"-" or json:"…" parquet:"-" member of each of %d Go types inserted at every position of every struct (top level and nested); every contiguous run of top-level members moved into an embedded struct, once and doubly nested' % len(progs.EXCL_TYPES),
                 'pairs': '%d (%s)' % (len(decs), 'seeded sample covering every excluded type' if quick else 'all'), 'records': '2 per pair, full structural nondeterminism, lists <= 1, strings <= 1 byte', 'outside': 'the parser mechanism itself is not encoded, only its effect on the generated program; thrift bytes (A1: equal structs encode equally, modelled with a fixed header length)'}
     c.assumptions = [STUB_ASSUMPTIONS[k] for k in ('A1', 'A2', 'A3', 'A4', 'A5', 'A6')]
     c.finish('one job per (base, decoration) pair; both generated writers run on records built from the same symbolic values (excluded members get their own fresh values), paths enumerate record structure; programs counts the pairs; disagreements_checked counts the obligations (segment equalities and zero-value checks) evaluated',
